@@ -341,6 +341,7 @@ def check(repo: Repo, run: Run) -> None:
         return False
 
     found_writers: Dict[str, list] = {}
+    unresolved_writes: List[str] = []
     log_call = T("attr", (T("class", ("pykdebugparser.os_log_event.OsLogEvent",)), "from_raw_log_event"))
     kb = repo.cls("kd_buf_parser", "KdBufParser")
     kb_recs = {mname: interp.run(kb.module, fn, self_cls=kb) for mname, fn in kb.methods.items() if mname != "__init__"}
@@ -355,17 +356,29 @@ def check(repo: Repo, run: Run) -> None:
         for e in rec.effects:
             if not table_write(e):
                 continue
-            if e.func.endswith("." + mname) and e.func in inlined_elsewhere and any(
+            if e.func.endswith("." + mname) and e.func in inlined_elsewhere and (mname.startswith("_") or any(
                     x.op == "param" and x != SELF for t_ in [e.value, e.key if isinstance(e.key, T) else None] + list(e.args)
-                    if t_ is not None for x in sym.walk(t_)):
-                continue
+                    if t_ is not None for x in sym.walk(t_))):
+                continue            # (a private helper is judged where it is called from: what it clears / stores there)
             terms = [t_ for t_ in (e.key if isinstance(e.key, T) else None, e.value) if t_ is not None] + list(e.args)
             from_log = any(x.op == "call" and x.a[0] == log_call for t_ in terms for x in sym.walk(t_))
-            from_map = any(x.op == "elem" for t_ in terms for x in sym.walk(t_)) and not from_log
+            elems_ = [x for t_ in terms for x in sym.walk(t_) if x.op == "elem"]
+            # what is iterated: the dump's thread map (a parse of the threadmap construct, or the parameter it is handed in)
+            # - or something the interpreter could not trace back (the records of a helper object, an opaque generator)
+            def _traced(x):
+                src = x.a[0]
+                return not any(y.op in ("unknown", "widen") or (y.op == "call" and y.a[0].op in ("func",) )
+                               or (y.op == "call" and y.a[0].op == "attr" and y.a[0].a[0].op in ("new", "unknown", "widen"))
+                               for y in sym.walk(src))
+            unresolved_src = bool(elems_) and not from_log and not all(_traced(x) for x in elems_)
+            from_map = bool(elems_) and not from_log and not unresolved_src
             fills_map = any(table_write(o) and o.kind == "sub-store" and not any(
                 x.op == "call" and x.a[0] == log_call for t_ in (o.key, o.value) if isinstance(t_, T) for x in sym.walk(t_))
                 and any(x.op == "elem" for t_ in (o.key, o.value) if isinstance(t_, T) for x in sym.walk(t_)) for o in rec.effects)
             is_map_clear = e.kind == "mut-call" and e.key == "clear" and fills_map
+            if unresolved_src:
+                unresolved_writes.append(f"{mname} line {e.lineno}")
+                continue
             ident = "container:log-record" if from_log else (
                 "container:thread-map" if (from_map or is_map_clear)
                 else f"container:{mname}:{e.kind}:{e.key if e.kind == 'mut-call' else ''}")
@@ -441,6 +454,11 @@ def check(repo: Repo, run: Run) -> None:
                    witness="a new-thread / exec data record followed by its string record on the same thread")
     run.floor("R4", "pending data records checked", n_pending, 2)
     missing = [k for k in REVIEWED_WRITERS if k not in found_writers]
+    if missing and unresolved_writes:
+        # a table write whose source could not be traced may be the writer that seems to be missing
+        run.floor_failures.append(f"C14/R4: the container parser writes the thread/process tables from a source the interpreter could "
+                                  f"not trace ({unresolved_writes[0]}); whether {missing} still update the tables is not decided")
+        missing = []
     run.ob("R4", MOD, "whole package", "every reviewed writer still updates the tables", not missing,
            f"{missing} no longer update the thread/process tables: later lines name a stale process",
            facts={"writers": sorted(found_writers)})
